@@ -200,7 +200,7 @@ def step (hash : Key → Nat) (cfg : Cfg) (b : Bucket) : Op → Bucket × Reply 
       else if r.body.length > 22 then (b, .num 0, none)
       else match Spec.parseInt r.body with
         | none => (b, .num 0, none)
-        | some old => write (it.ver + 1) (old + delta)
+        | some old => write (it.ver + 1) (Spec.wrap64 (old + delta))
   | .get k =>
     match b.lookup hash k with
     | .miss => (b, .miss, none)
